@@ -187,6 +187,8 @@ impl<'e> Body<'e> {
             0 => 0,
             1 => self.rng.below(64),
             2 => self.rng.below(1 << 16),
+            // a 64-bit memory admits any 64-bit static offset
+            _ if self.env.mems[mem].mem64 && self.rng.chance(1, 2) => *self.rng.pick(&[1u64 << 32, (1 << 32) + 7, u64::MAX, 1 << 40, u64::MAX / 3]),
             _ => self.rng.below(u32::MAX as u64),
         };
         MemArg { offset, align, memory_index: mem as u32 }
